@@ -50,6 +50,36 @@ func refDecode(enc string, c []byte) (out []byte, failed bool) {
 	return refDecodeSched(enc, c, nil)
 }
 
+// cutReader delivers its bytes and then io.ErrUnexpectedEOF instead of io.EOF: a framing layer that ends
+// short of the declared length.
+type cutReader struct{ r *bytes.Reader }
+
+func (c cutReader) Read(p []byte) (int, error) {
+	n, err := c.r.Read(p)
+	if err == io.EOF {
+		err = io.ErrUnexpectedEOF
+	}
+	return n, err
+}
+
+// refDecodeCut: the reference decoder over a source that ends with io.ErrUnexpectedEOF.  Whether raw
+// flate touches the source once more after its final block depends on the bit position where the
+// stream ends; the model takes it from here.
+func refDecodeCut(enc string, c []byte) (out []byte, failed bool) {
+	cutSource = true
+	defer func() { cutSource = false }()
+	return refDecodeSched(enc, c, nil)
+}
+
+var cutSource bool // harness is single-threaded where the reference decoders run
+
+func refSource(c []byte) io.Reader {
+	if cutSource {
+		return cutReader{bytes.NewReader(c)}
+	}
+	return bytes.NewReader(c)
+}
+
 // refDecodeSched: the same with the reads a caller performs: ReadFull of the given sizes until the first
 // error, then (if none) the rest in one go.
 func refDecodeSched(enc string, c []byte, sizes []int) (out []byte, failed bool) {
@@ -61,18 +91,18 @@ func refDecodeSched(enc string, c []byte, sizes []int) (out []byte, failed bool)
 	var r io.Reader
 	switch enc {
 	case "gzip":
-		zr, err := gzip.NewReader(bytes.NewReader(c))
+		zr, err := gzip.NewReader(refSource(c))
 		if err != nil {
 			// the code under test maps an empty stream to a clean EOF too (gzip.NewReader -> io.EOF)
 			return nil, err != io.EOF
 		}
 		r = zr
 	case "deflate":
-		r = flate.NewReader(bytes.NewReader(c))
+		r = flate.NewReader(refSource(c))
 	case "br":
-		r = brotli.NewReader(bytes.NewReader(c))
+		r = brotli.NewReader(refSource(c))
 	case "zstd":
-		zr, err := zstd.NewReader(bytes.NewReader(c))
+		zr, err := zstd.NewReader(refSource(c))
 		if err != nil {
 			return nil, true
 		}
